@@ -4,6 +4,7 @@ import (
 	"go/ast"
 	"go/token"
 	"go/types"
+	"sort"
 	"strings"
 
 	"gnoverif/engine"
@@ -16,8 +17,8 @@ import (
 func init() {
 	register("C23", c23)
 	meta("C23", Meta{
-		Text:      "Decides structural necessary conditions of 'a saved version never changes / rollback restores the last saved version': (1) copy-on-write discipline over the whole bptree package by SSA value-origin analysis — every store into InnerNode/LeafNode/MiniMerkle memory is on a node allocated or cloned in that function, on a parameter all of whose in-package callers pass such a node (transitively), on a child slot the caller filled with a fresh clone by a dominating setChild (remove path), or — saveNode only — behind the `nodeKey == nil` gate; no byte of a stored key is written in place; (2) the functions that require a fresh argument are referenced only by direct calls inside the package; nodeKey/root/lastSaved have a closed writer set; (3) Set/Remove publish the new root only behind the error test of treeInsert/treeRemove, every error return after publication is dominated by `t.poisoned = err`, and Set/Remove/SaveVersion test `poisoned` before anything else; (4) SaveVersion moves lastSaved/version only behind a successful Commit (or adopts the persisted root on the idempotent path), its deferred closure discards the batch unless committed and poisons on error; Rollback assigns root from lastSaved and clears the batch; loadVersionDiscovered performs no session write before its last fallible read. Level 'other': code-shape conditions, not the ordered-map behaviour.",
-		Note:      "Not covered: ordered-map semantics of search/split/merge/redistribute, iterator ranges, pruning correctness (dual-walk), index arithmetic. Slot contracts assume nothing overwrites a child slot between the dominating setChild and the mutator call. Fields nodeKey and ndb are bookkeeping (closed writer set checked separately). In-place library effects (sort, slices.Delete) on node arrays are not modelled (none occur today). Thorough tier additionally closes the caller table of the exported node mutators over tm2/..., gno.land/..., gnovm/... (≈60 s).",
+		Text:      "Decides structural necessary conditions of 'a saved version never changes / rollback restores the last saved version': (1) copy-on-write discipline over the whole bptree package by SSA value-origin analysis — every store into InnerNode/LeafNode/MiniMerkle memory is on a node allocated or cloned in that function, on a parameter all of whose in-package callers pass such a node (transitively), on a child slot the caller filled with a fresh clone by a dominating setChild (remove path), or — saveNode only — behind the `nodeKey == nil` gate; no byte of a stored key is written in place; (2) the functions that require a fresh argument are referenced only by direct calls inside the package; nodeKey/root/lastSaved have a closed writer set; (3) Set/Remove publish the new root only behind the error test of treeInsert/treeRemove, every error return after publication is dominated by `t.poisoned = err`, and Set/Remove/SaveVersion test `poisoned` before anything else; (4) SaveVersion moves lastSaved/version only behind a successful Commit (or adopts the persisted root on the idempotent path), its deferred closure discards the batch unless committed and poisons on error; Rollback assigns root from lastSaved and clears the batch; loadVersionDiscovered performs no session write before its last fallible read; (5) parallel arrays — InnerNode.childNodes/children/childHashes/childSizes and LeafNode.keys/valueHashes/valueKeys are indexed by the same slot: in every function of the package each element move or clear of one array is mirrored on the others with the same destination and the same source index (indices normalised to linear forms after resolving single-definition locals, conversions and NumChildren()); a size or hash stored at a slot is computed from the node installed at that slot; subtree sizes are adjusted only at slots the function operated on, by the size stored at the slot the moved child came from; copies into/out of staging arrays use identical offsets across the group, equal lengths, and tile the staging array without gaps; redistributeLeft is the mirror image of redistributeRight (which end is read/written, sign of the parent size adjustments). Level 'other': code-shape conditions, not the ordered-map behaviour.",
+		Note:      "Not covered: ordered-map semantics of search/split/merge/redistribute, iterator ranges, pruning correctness (dual-walk), remaining index arithmetic: loop bounds of the shift loops, the separator-key array of inner nodes (offset index space), agreement between innerInsert's re-wiring of childNodes from the staging array (splitIdx) and splitInner's split point, upper bounds of copies into staging arrays beyond the no-gap test, pointer/ref duality (childNodes vs children) beyond 'the other one is set when this one is cleared'. Index comparison is flow-insensitive (numKeys is assumed not to change between the definition of an index local and its uses in one group of statements). Slot contracts assume nothing overwrites a child slot between the dominating setChild and the mutator call. Fields nodeKey and ndb are bookkeeping (closed writer set checked separately). In-place library effects (sort, slices.Delete) on node arrays are not modelled (none occur today). Thorough tier additionally closes the caller table of the exported node mutators over tm2/..., gno.land/..., gnovm/... (≈60 s).",
 		Technique: "go/ssa value-origin (freshness) analysis with interprocedural parameter and child-slot contracts; go/cfg dominance and reachability; who-may-write tables",
 		Ref:       "DESIGN.md §2 C23, §9 (R-FRESH remove path)",
 	})
@@ -40,6 +41,15 @@ func init() {
 		Mutant{"rollback-keeps-root", mt, "\tt.root = t.lastSaved\n\tif t.root != nil {\n\t\tt.size = nodeSize(t.root)\n\t} else {\n\t\tt.size = 0\n\t}\n\t// Rollback restores", "\tif t.root != nil {\n\t\tt.size = nodeSize(t.root)\n\t} else {\n\t\tt.size = 0\n\t}\n\t// Rollback restores", "rollback-restores"},
 		Mutant{"load-discards-before-read", mt, "\troot, err := t.loadNode(nkBytes)\n\tif err != nil {\n\t\treturn 0, fmt.Errorf(\"loading root: %w\", err)\n\t}\n\n\t// Reads succeeded", "\tt.ndb.DiscardBatch()\n\troot, err := t.loadNode(nkBytes)\n\tif err != nil {\n\t\treturn 0, fmt.Errorf(\"loading root: %w\", err)\n\t}\n\n\t// Reads succeeded", "load-atomic"},
 		Mutant{"savenode-ungated", mt, "\tif node.GetNodeKey() != nil {\n\t\treturn nil // already saved\n\t}\n\n\t// For inner nodes", "\tif node.GetNodeKey() != nil && version < 0 {\n\t\treturn nil // already saved\n\t}\n\n\t// For inner nodes", "fresh-write tm2/pkg/bptree.(*MutableTree).saveNode"},
+		Mutant{"moved-size-wrong-slot", rm, "\t\tmovedSize := l.childSizes[lastChildIdx]", "\t\tmovedSize := l.childSizes[lastKeyIdx]", "parallel-move tm2/pkg/bptree.redistributeRight InnerNode"},
+		Mutant{"seeded-childsizes-drift", rm, "\t\tlastChildIdx := int(l.numKeys)\n\t\tmovedSize := l.childSizes[lastChildIdx]", "\t\tlastChildIdx := lastKeyIdx + 1\n\t\tmovedSize := l.childSizes[lastKeyIdx]", "moved-amount tm2/pkg/bptree.redistributeRight"},
+		Mutant{"moved-size-wrong-end-left", rm, "\t\tmovedSize := r.childSizes[0]", "\t\tmovedSize := r.childSizes[1]", "moved-amount tm2/pkg/bptree.redistributeLeft"},
+		Mutant{"merge-shift-forgets-sizes", rm, "\t\tparent.childSizes[i] = parent.childSizes[i+1]\n", "", "parallel-move tm2/pkg/bptree.merge InnerNode"},
+		Mutant{"size-adjusted-at-wrong-slot", rm, "\t\tparent.childSizes[idx+1]++", "\t\tparent.childSizes[idx+2]++", "size-adjust tm2/pkg/bptree.redistributeRight"},
+		Mutant{"staging-sizes-offset", ins, "\tcopy(allSizes[childIdx+2:], inner.childSizes[childIdx+1:B])", "\tcopy(allSizes[childIdx+2:], inner.childSizes[childIdx+2:B])", "parallel-copy tm2/pkg/bptree.innerInsert InnerNode copy ranges"},
+		Mutant{"size-of-wrong-node", ins, "\t\tinner.childSizes[childIdx+1] = nodeSize(sr.right)", "\t\tinner.childSizes[childIdx+1] = nodeSize(child)", "derived-at-slot tm2/pkg/bptree.innerInsert"},
+		Mutant{"left-appends-over-last-child", rm, "\t\tlnc := l.NumChildren()", "\t\tlnc := l.NumChildren() - 1", "mirror redistributeRight/redistributeLeft InnerNode.childNodes"},
+		Mutant{"staging-gap", ins, "\tcopy(allVK[pos+1:], leaf.valueKeys[pos:B])", "\tcopy(allVK[pos+2:], leaf.valueKeys[pos:B])", "staging-tiling tm2/pkg/bptree.leafInsert allVK"},
 	)
 }
 
@@ -475,6 +485,9 @@ func c23(c *engine.Ctx) {
 		c.Check("poison-clear", P+"MutableTree.poisoned = nil", token.NoPos, len(engine.SetDiff(clearers, []string{T + "Rollback", T + "loadVersionDiscovered"})) == 0 && len(clearers) > 0, "cleared in: "+join(clearers))
 	}
 
+	// ---- (5) parallel arrays
+	c23Parallel(c, p)
+
 	// ---- thorough: the exported mutators of the exported node types are not used anywhere else in the module
 	if c.Tier == "thorough" {
 		if wide := c.Load("tm2/...", "gno.land/...", "gnovm/..."); wide != nil {
@@ -535,4 +548,340 @@ func tgStmtExpr(n ast.Node) ast.Expr {
 		return x.X
 	}
 	return &ast.Ident{Name: "?"}
+}
+
+// c23Parallel applies the parallel-array rules (helpers_treeG.go, tgPar*) to
+// every function of tm2/pkg/bptree.
+func c23Parallel(c *engine.Ctx, p *engine.Prog) {
+	const P = "tm2/pkg/bptree."
+	groups := []tgParGroup{
+		{Type: "InnerNode", Fields: []string{"childNodes", "children", "childHashes", "childSizes"}},
+		{Type: "LeafNode", Fields: []string{"keys", "valueHashes", "valueKeys"}},
+	}
+	named := map[string]*types.Named{}
+	for _, g := range groups {
+		n := p.Named(P + g.Type)
+		if n == nil {
+			c.Undecided("anchor", P+g.Type, "type not found")
+			return
+		}
+		named[g.Type] = n
+	}
+	owner := func(v *types.Var) string {
+		for name, n := range named {
+			st := n.Underlying().(*types.Struct)
+			for i := 0; i < st.NumFields(); i++ {
+				if st.Field(i) == v.Origin() {
+					return name
+				}
+			}
+		}
+		return ""
+	}
+	isLocal := func(b string) bool { return strings.HasPrefix(b, "local:") }
+	fns := map[string]*tgParFn{}
+	nMove, nDerived, nAdjust, nAmount, nCopy, nTile := 0, 0, 0, 0, 0, 0
+	for _, f := range p.FuncsIn("tm2/pkg/bptree") {
+		if !tgParMentions(f, owner) {
+			continue
+		}
+		a := tgParAnalyse(f, owner, groups)
+		fns[f.Name] = a
+		if len(a.writes) == 0 && len(a.copies) == 0 {
+			continue
+		}
+		for _, g := range groups {
+			ref := g.Type + "." + g.Fields[0]
+			sizes := g.Type + ".childSizes"
+			// ---- parallel-move: element moves and clears agree across the group
+			sets := map[string]map[string]bool{}
+			pos := token.NoPos
+			hasNonZeroAt := func(field, base, idx string) bool {
+				for _, w := range a.writes {
+					if w.Field == field && w.Base == base && w.Idx == idx && w.Kind != tgParZero && w.Kind != tgParElem {
+						return true
+					}
+				}
+				return false
+			}
+			for _, w := range a.writes {
+				if !strings.HasPrefix(w.Field, g.Type+".") || isLocal(w.Base) || (w.Kind != tgParElem && w.Kind != tgParZero) {
+					continue
+				}
+				if w.Kind == tgParElem && isLocal(w.SrcBase) {
+					continue // re-wiring from a staging array (not covered: agreement with splitInner's split point)
+				}
+				if w.Kind == tgParZero && g.Type == "InnerNode" {
+					// pointer/ref duality: exactly one of childNodes[i] / children[i] is authoritative
+					dual := ""
+					switch w.Field {
+					case "InnerNode.childNodes":
+						dual = "InnerNode.children"
+					case "InnerNode.children":
+						dual = "InnerNode.childNodes"
+					}
+					if dual != "" && hasNonZeroAt(dual, w.Base, w.Idx) {
+						continue
+					}
+				}
+				e := w.Base + "[" + w.Idx + "] <- "
+				if w.Kind == tgParZero {
+					e += "zero"
+				} else {
+					e += w.SrcBase + "[" + w.SrcIdx + "]"
+				}
+				if sets[w.Field] == nil {
+					sets[w.Field] = map[string]bool{}
+				}
+				sets[w.Field][e] = true
+				if pos == token.NoPos {
+					pos = w.Pos
+				}
+			}
+			if len(sets) > 0 {
+				nMove++
+				var diff []string
+				refSet := sets[ref]
+				for _, fl := range g.Fields {
+					cur := sets[g.Type+"."+fl]
+					for e := range refSet {
+						if !cur[e] {
+							diff = append(diff, fl+" lacks `"+e+"`")
+						}
+					}
+					for e := range cur {
+						if !refSet[e] {
+							diff = append(diff, fl+" has `"+e+"` but "+g.Fields[0]+" does not")
+						}
+					}
+				}
+				sort.Strings(diff)
+				c.Check("parallel-move", f.Name+" "+g.Type+" slots", pos, len(diff) == 0,
+					"every move/clear of one of "+strings.Join(g.Fields, "/")+" must be mirrored on the others with the same destination and source index"+tgIf(len(diff) > 0, ": "+strings.Join(diff, "; ")))
+			}
+			if g.Type != "InnerNode" {
+				continue
+			}
+			// ---- derived-at-slot: nodeSize(e) / e.Hash() stored at slot D describe the node that is at slot D
+			for _, w := range a.writes {
+				if (w.Kind != tgParSize && w.Kind != tgParHash) || !strings.HasPrefix(w.Field, "InnerNode.") {
+					continue
+				}
+				nDerived++
+				ok := false
+				if strings.HasPrefix(w.Val, "@") {
+					ok = w.Val == "@"+w.Base+"["+w.Idx+"]"
+				} else {
+					for _, s := range a.writes {
+						if s.Field == ref && s.Kind == tgParSet && s.Val == w.Val && s.Idx == w.Idx {
+							ok = true
+						}
+					}
+				}
+				c.Check("derived-at-slot", f.Name+" "+w.Text+" = f("+w.Val+")", w.Pos, ok, "a size/hash stored at child slot "+w.Base+"["+w.Idx+"] must be computed from the node installed at that same slot"+tgIf(!ok, " (`"+w.Val+"` is not)"))
+			}
+			// ---- size-adjust / moved-amount
+			crossSrc := map[string]bool{}
+			for _, w := range a.writes {
+				if w.Field == ref && w.Kind == tgParElem && w.Base != w.SrcBase {
+					crossSrc["@"+w.SrcBase+"["+w.SrcIdx+"]"] = true
+				}
+			}
+			for _, w := range a.writes {
+				if w.Field != sizes || w.Kind != tgParArith || isLocal(w.Base) {
+					continue
+				}
+				nAdjust++
+				ok := a.operand[w.Base+"["+w.Idx+"]"]
+				for _, r := range w.Reads {
+					if !a.operand[r] {
+						ok = false
+					}
+				}
+				c.Check("size-adjust", f.Name+" "+w.Text+" "+w.Op.String(), w.Pos, ok, "a subtree size may only be adjusted at a slot whose child this function read, loaded or installed (operands: "+join(engine.SortedKeys(a.operand))+")")
+				if strings.HasPrefix(w.Amount, "@") {
+					nAmount++
+					c.Check("moved-amount", f.Name+" "+w.Text+" "+w.Op.String()+" "+w.Amount, w.Pos, crossSrc[w.Amount], "the amount moved between sibling sizes must be the size stored at the slot the moved child is taken from (moved children come from: "+join(engine.SortedKeys(crossSrc))+")")
+				}
+			}
+		}
+		// ---- parallel-copy and tiling
+		if len(a.copies) > 0 {
+			for _, g := range groups {
+				perField := map[string]map[string]bool{}
+				var pos token.Pos
+				for _, cp := range a.copies {
+					fl := cp.DstField
+					if fl == "" {
+						fl = cp.SrcField
+					}
+					if !strings.HasPrefix(fl, g.Type+".") {
+						continue
+					}
+					e := "dst[" + cp.DstLo + ":] <- src[" + cp.SrcLo + ":"
+					if cp.DstField != "" {
+						e += cp.SrcHi
+					}
+					e += "]"
+					if perField[fl] == nil {
+						perField[fl] = map[string]bool{}
+					}
+					perField[fl][e] = true
+					pos = cp.Pos
+					// equal lengths when both ends are closed
+					if cp.DstHi != "" && cp.SrcHi != "" {
+						ds, dk := tgLinSplit(cp.DstHi)
+						dls, dlk := tgLinSplit(cp.DstLo)
+						ss, sk := tgLinSplit(cp.SrcHi)
+						sls, slk := tgLinSplit(cp.SrcLo)
+						if ds == ss && (dls == sls || (dls == "" && sls == "")) {
+							nCopy++
+							c.Check("parallel-copy", f.Name+" "+cp.Text+" lengths", cp.Pos, dk-dlk == sk-slk, "copy source and destination ranges must have the same length")
+						}
+					}
+				}
+				if len(perField) >= 2 {
+					nCopy++
+					var names []string
+					for fl := range perField {
+						names = append(names, fl)
+					}
+					sort.Strings(names)
+					first := strings.Join(engine.SortedKeys(perField[names[0]]), " | ")
+					ok := true
+					detail := ""
+					for _, fl := range names {
+						cur := strings.Join(engine.SortedKeys(perField[fl]), " | ")
+						detail += fl + ": " + cur + "; "
+						if cur != first {
+							ok = false
+						}
+					}
+					c.Check("parallel-copy", f.Name+" "+g.Type+" copy ranges", pos, ok, "the parallel arrays must be copied with identical offsets: "+detail)
+				}
+			}
+			// tiling of local staging arrays
+			type piece struct{ lo, hi string }
+			locals := map[string][]piece{}
+			for _, cp := range a.copies {
+				if cp.DstField == "" {
+					locals[cp.DstBase] = append(locals[cp.DstBase], piece{cp.DstLo, cp.DstHi})
+				}
+			}
+			for _, w := range a.writes {
+				if isLocal(w.Base) {
+					s, k := tgLinSplit(w.Idx)
+					hi := tgLinJoin(s, k+1)
+					locals[w.Base] = append(locals[w.Base], piece{w.Idx, hi})
+				}
+			}
+			for _, name := range engine.SortedKeys(locals) {
+				ps := locals[name]
+				nTile++
+				cur, done, gap := "0", false, ""
+				for step := 0; step < len(ps)+1 && !done; step++ {
+					cs, ck := tgLinSplit(cur)
+					best, bestK, found := "", 0, false
+					for _, pc := range ps {
+						ls, lk := tgLinSplit(pc.lo)
+						if !(ls == cs && lk <= ck) {
+							continue
+						}
+						if pc.hi == "" {
+							done, found = true, true
+							break
+						}
+						hs, hk := tgLinSplit(pc.hi)
+						if hs == cs && hk <= ck {
+							continue
+						}
+						if !found || (hs == best && hk > bestK) || (cs == "" && hs != "") {
+							best, bestK, found = hs, hk, true
+						}
+					}
+					if !found {
+						gap = cur
+						break
+					}
+					if !done {
+						cur = tgLinJoin(best, bestK)
+					}
+				}
+				c.Check("staging-tiling", f.Name+" "+strings.TrimPrefix(name, "local:"), f.Pos(), done && gap == "", "the staging array must be filled without a gap from index 0 to its end"+tgIf(gap != "", "; nothing fills index "+gap)+tgIf(!done && gap == "", "; no open-ended tail copy"))
+			}
+		}
+	}
+	c.Floor("parallel-move", nMove, 8)
+	c.Floor("derived-at-slot", nDerived, 14)
+	c.Floor("size-adjust", nAdjust, 7)
+	c.Floor("moved-amount", nAmount, 4)
+	c.Floor("parallel-copy", nCopy, 6)
+	c.Floor("staging-tiling", nTile, 7)
+
+	// ---- mirror: redistributeLeft is the mirror image of redistributeRight
+	rr, rl := fns[P+"redistributeRight"], fns[P+"redistributeLeft"]
+	if rr == nil || rl == nil {
+		c.Undecided("anchor", P+"redistributeRight/redistributeLeft", "function not found")
+		return
+	}
+	nMirror := 0
+	for _, ref := range []string{"InnerNode.childNodes", "LeafNode.keys"} {
+		cross := func(a *tgParFn) []tgParWrite {
+			var out []tgParWrite
+			for _, w := range a.writes {
+				if w.Field == ref && w.Kind == tgParElem && w.Base != w.SrcBase {
+					out = append(out, w)
+				}
+			}
+			return out
+		}
+		cr, cl := cross(rr), cross(rl)
+		nMirror++
+		ok := len(cr) == 1 && len(cl) == 1
+		why := "each direction must move exactly one " + ref + " entry between the siblings"
+		if ok {
+			r, l := cr[0], cl[0]
+			ls, lk := tgLinSplit(l.Idx)
+			rs, rk := tgLinSplit(r.SrcIdx)
+			ok = r.SrcBase == l.Base && r.Base == l.SrcBase && r.Idx == "0" && l.SrcIdx == "0" && ls == rs && lk == rk+1
+			why = "Right: " + r.Base + "[" + r.Idx + "] <- " + r.SrcBase + "[" + r.SrcIdx + "]; Left: " + l.Base + "[" + l.Idx + "] <- " + l.SrcBase + "[" + l.SrcIdx + "]; Right must take the donor's LAST entry to the receiver's slot 0, Left the donor's slot 0 to one past the receiver's last entry (= Right's source index + 1)"
+		}
+		c.Check("mirror", "redistributeRight/redistributeLeft "+ref, rr.f.Pos(), ok, why)
+	}
+	// parent size adjustments are opposite within a function and swapped between the two
+	ops := func(a *tgParFn) map[string][]string {
+		m := map[string][]string{}
+		for _, w := range a.writes {
+			if w.Field == "InnerNode.childSizes" && w.Kind == tgParArith && w.Base == "parent" {
+				dir := "+"
+				if w.Op == token.SUB_ASSIGN || w.Op == token.DEC {
+					dir = "-"
+				}
+				m[w.Idx] = append(m[w.Idx], dir)
+			}
+		}
+		return m
+	}
+	or, ol := ops(rr), ops(rl)
+	nMirror++
+	okOps := len(or) == 2 && len(ol) == 2
+	for idx, ds := range or {
+		for _, d := range ds {
+			if d != "-" && idx == "idx" || d != "+" && idx == "idx+1" {
+				okOps = false
+			}
+		}
+		if len(ol[idx]) != len(ds) {
+			okOps = false
+		}
+	}
+	for idx, ds := range ol {
+		for _, d := range ds {
+			if d != "+" && idx == "idx" || d != "-" && idx == "idx+1" {
+				okOps = false
+			}
+		}
+	}
+	c.Check("mirror", "redistributeRight/redistributeLeft parent size adjustments", rr.f.Pos(), okOps, "Right must shrink parent.childSizes[idx] and grow [idx+1]; Left the opposite; both in the leaf and the inner case")
+	c.Floor("mirror", nMirror, 3)
 }
